@@ -370,6 +370,14 @@ def _(i, st, a, c): return V3(Fraction(0), Fraction(0), Fraction(0))
 def _(i, st, a, c): return Fraction(0)
 
 
+@model(r'<[ui](8|16|32|64|128|size) as Default>::default')
+def _(i, st, a, c): return 0
+
+
+@model(r'<bool as Default>::default')
+def _(i, st, a, c): return False
+
+
 @model(r'<usize as Default>::default')
 def _(i, st, a, c): return 0
 
@@ -953,6 +961,65 @@ def _keep_some(v):
     if isinstance(v, Var) and v.name == 'Some':
         return [v.items[0]]
     raise Unsupported('filter_map closure returned %r' % (v,))
+
+
+@model(r'Box::new')
+def _(i, st, a, c): return a[0]
+
+
+def _pred_items(i, st, items, clo, mode):
+    """filter / take_while / skip_while with a possibly symbolic predicate: forks on every undecided element"""
+    work = [(st, [], 'open')]
+    for it in items:
+        nxt = []
+        for s, acc, phase in work:
+            if mode == 'take_while' and phase == 'closed':
+                nxt.append((s, acc, phase))
+                continue
+            if mode == 'skip_while' and phase == 'closed':
+                nxt.append((s, acc + [it], phase))
+                continue
+            hid = next(_tmp_ids)
+            s.heap[hid] = it
+            for s2, keep in i.call_closure(s, clo, [Ref(('H', hid))]):
+                branches = []
+                if is_z3(keep):
+                    for val in (True, False):
+                        cond = keep if val else z3.Not(keep)
+                        if i.feasible(s2, cond):
+                            s3 = s2.fork()
+                            s3.pc.append(cond)
+                            branches.append((s3, val))
+                else:
+                    branches.append((s2, bool(keep)))
+                for s3, val in branches:
+                    if mode == 'filter':
+                        nxt.append((s3, acc + ([it] if val else []), phase))
+                    elif mode == 'take_while':
+                        nxt.append((s3, acc + [it], phase) if val else (s3, acc, 'closed'))
+                    else:
+                        nxt.append((s3, acc, phase) if val else (s3, acc + [it], 'closed'))
+        work = nxt
+    return [(s, list_iter(acc)) for s, acc, _ in work]
+
+
+@model(r'<.* as Iterator>::filter$')
+def _(i, st, a, c): return _pred_items(i, st, _as_list(i, st, a[0]), a[1], 'filter')
+
+
+@model(r'<.* as Iterator>::take_while')
+def _(i, st, a, c): return _pred_items(i, st, _as_list(i, st, a[0]), a[1], 'take_while')
+
+
+@model(r'<.* as Iterator>::skip_while')
+def _(i, st, a, c): return _pred_items(i, st, _as_list(i, st, a[0]), a[1], 'skip_while')
+
+
+@model(r'<.* as Iterator>::skip$')
+def _(i, st, a, c):
+    if is_z3(a[1]):
+        raise Unsupported('skip by a symbolic count')
+    return list_iter(_as_list(i, st, a[0])[a[1]:])
 
 
 @model(r'<.* as Iterator>::filter_map')
